@@ -1,6 +1,6 @@
 import Driver.Util
 import Driver.Session
-import AsyncFix.Model.Link
+import AsyncFix.Model.LinkInv
 import Std.Data.HashSet
 
 /-!
@@ -117,6 +117,13 @@ def checkState (l : Link) : Option String :=
     else none
   else none
 
+/-- hook evaluated on every explored transition: commutation of the abstraction with the step functions -/
+def checkAbs (l : Link) (ev : Ev) (l1 : Link) : Option String :=
+  if !(absLink l1 == astep (absLink l) (absEv ev)) then some "abs-commute"
+  else if !decide (SafeInv (absLink l1)) then some "safe-inv"
+  else if !decide (SyncInv (absLink l1)) then some "sync-inv"
+  else none
+
 def exploreLevel (seen : Std.HashSet String) (frontier : List (Link × List String)) :
     Std.HashSet String × List (Link × List String) × List String :=
   frontier.foldl (init := (seen, [], [])) fun (seen, next, bad) (l, path) =>
@@ -127,6 +134,9 @@ def exploreLevel (seen : Std.HashSet String) (frontier : List (Link × List Stri
       else
         let p := name :: path
         let bad := match checkState l1 with
+          | some why => (why ++ "@" ++ String.intercalate "," p.reverse) :: bad
+          | none => bad
+        let bad := match checkAbs l ev l1 with
           | some why => (why ++ "@" ++ String.intercalate "," p.reverse) :: bad
           | none => bad
         (seen.insert k, (l1, p) :: next, bad)
